@@ -53,6 +53,10 @@ def dialect():
 	13. names: members are lower snake of >= 2 characters (grammar PROPERTY_NAME), type names `Xx..` (USER_TYPE_NAME); Python keywords,
 	    the generated methods' own locals and attributes (buffer, payload, instance, size, sort, serialize, ...) are avoided;
 	    `type` and `property` are allowed (name_formatting.fix_name appends `_`) except as sort-key / comparer / condition members.
+	15. members whose value is DERIVED from the size of other members (the @size member, sizeof, @sizeref, the byte size of an
+	    @is_byte_constrained array) are uint32 or uint64, as in the shipped schemas: reads are lenient (`int.from_bytes(buffer[:n])` of an
+	    exhausted view is 0, read_array_impl keeps decoding elements from an empty view), so a mutated count can decode to a value larger
+	    than its input, which a narrower derived-size member cannot express on re-encode (OverflowError; seen with sizeof(uint16, ..)).
 	14. NARROWED after findings (each is replayed by a fixed schema of PROBES and reported under c15:<name> while it fails): every child of an
 	    abstract parent adds at least one member; every struct has at least one settable member; an abstract parent has no byte-array
 	    member of its own; a sort key is not called `type`/`property`; no member is called like a local of the generated methods
@@ -362,7 +366,7 @@ class Builder:
 		member = self.member_name(allow_special=False)
 		self.used_members.add(f'{member}_size')
 		self.note('member:sizeof:abstract' if abstract else 'member:sizeof')
-		return [Line(f'{member}_size = sizeof(uint{self.rng.choice([32, 32, 32, 16])}, {member})'), Line(f'{member} = {target}', member)]
+		return [Line(f'{member}_size = sizeof(uint{self.rng.choice([32, 32, 32, 64])}, {member})'), Line(f'{member} = {target}', member)]
 
 	def g_levy(self):
 		candidates = [s for s in self.structs if not s.size_implicit]
@@ -374,7 +378,7 @@ class Builder:
 		self.note('member:sizeref')
 		self.note('cond:sizeref-struct')
 		return [
-			Line(f'{size_name} = uint{self.rng.choice([32, 32, 16])}', attrs=[f'@sizeref({member}, {delta})']),
+			Line(f'{size_name} = uint{self.rng.choice([32, 32, 64])}', attrs=[f'@sizeref({member}, {delta})']),
 			Line(f'{member} = {self.rng.choice(candidates).name} if {self.number(0)} not equals {size_name}')]
 
 	def g_optbytes(self):
@@ -568,7 +572,7 @@ class Builder:
 		members = self.merge(extra + [[line] for line in disc_lines.values()])
 		header = []
 		if symbol:
-			size_line = Line(f'size = uint{rng.choice([32, 32, 32, 16, 64])}')
+			size_line = Line(f'size = uint{rng.choice([32, 32, 32, 64])}')
 			self.note('struct:size-prefixed')
 			if self.chance(1, 4 if self.small else 2):
 				template = self.type_name()
@@ -797,7 +801,7 @@ def generate_once(rng, index, small=False, forced=4):
 			pad = rng.choice(['', '', ', not pad_last'])
 			if pad:
 				builder.note('pad_last:not')
-			lines = [Line(f'{size_name} = uint{rng.choice([32, 32, 16])}')]
+			lines = [Line(f'{size_name} = uint{rng.choice([32, 32, 64])}')]
 			if rng.randrange(2):
 				lines += builder.g_reserved()
 			lines.append(Line(f'{member} = array({element_family.name}, {size_name})', attrs=['@is_byte_constrained', f'@alignment({alignment}{pad})']))
